@@ -29,6 +29,11 @@ func (p ArrayPattern) Bind(ctx context.Context, local Scope, value Value) (conte
 	if !is {
 		return ctx, EmptyScope, fmt.Errorf("value %s is not an array", value)
 	}
+	// An array pattern denotes a dense array starting at index 0; the items are
+	// taken from the backing slice by position, which is only right for those.
+	if array.offset != 0 || array.count != len(array.values) {
+		return ctx, EmptyScope, fmt.Errorf("array %s with an offset or holes cannot match array pattern %s", array, p)
+	}
 
 	extraElements := make(map[int]int)
 	for i, item := range p.items {
